@@ -130,6 +130,9 @@ def ref_contribution(label, kind, branch, r, L, r0, par, tmodel, ri, J):
     raise KeyError(label)
 
 
+OWN_EDGE_SCREW = {('Coherency', 'weak'): 'coherencyWeak', ('Coherency', 'strong'): 'coherencyStrong', ('Modulus', 'weak'): 'modulusWeak',
+                  ('APB', 'weak'): 'APBweak', ('APB', 'strong'): 'APBstrong', ('Interfacial', 'weak'): 'interfacialWeak'}
+
 # relative tolerance of the edge/screw reduction per contribution and branch: 1e-9 where the mixed formula contains only exact
 # constants (rounding of a dozen floating operations, cancellation covered by the absolute term 1e-9 * scale); where kawin's
 # mixed formula carries a rounded decimal literal the tolerance is half a unit of its last digit:
@@ -221,6 +224,7 @@ def run_formulas(case):
             viol.append({'sig': 'formulas/' + sig, 'msg': tag + ': ' + msg})
 
     sm, query, active, par, ri = _build_strength(theta, mask, mode, tmodel, jmodel, ri_mult, psi, nexp, ntot)
+    case_phase = {'all': 'all', 'all->P1': 'all', 'P1-only': 'P1', 'P1-only->P2': 'P1', 'override': 'P1'}[mode]   # key the parameters were stored under
     R, L = [a.ravel() for a in np.meshgrid(np.array(R_LAT), np.array(L_LAT), indexing='ij')]
     npt = len(R)
     regions = [_region(R[k], L[k], ri) for k in range(npt)]
@@ -276,6 +280,25 @@ def run_formulas(case):
                         bad('reduction/%s-%s/%s' % (lab.lower(), branch, kind),
                             '%s %s at %s limit: kawin %r, %s formula %r at r=%g spacing=%g (rel. tolerance %g)'
                             % (lab, branch, kind, float(got[k]), kind, float(exp[k]), R[k], L[k], tol))
+                    # ... and to the edge / screw formulas the library itself ships (public methods <contribution><Branch><Edge|Screw>)
+                    own_name = OWN_EDGE_SCREW.get((lab, branch))
+                    if own_name is not None:
+                        fn = getattr(sm, own_name + kind.capitalize(), None)
+                        if fn is None:
+                            bad('reduction/own-formula-missing/%s-%s' % (lab.lower(), branch), 'no method %s%s' % (own_name, kind.capitalize()))
+                            continue
+                        try:
+                            own = np.asarray(fn(R, L, r0, phase=case_phase), dtype=float)
+                        except Exception as e:
+                            bad('reduction/own-formula-exception/%s-%s/%s' % (lab.lower(), branch, kind), '%s: %s' % (type(e).__name__, e))
+                            continue
+                        oko = np.isfinite(own) & (own > 0) & ok
+                        wrongo = oko & (np.abs(got - own) > tol * np.abs(own) + 1e-9 * np.where(oko, scale, 0.0))
+                        nred += int(np.sum(oko))
+                        for k in np.nonzero(wrongo)[0][:1]:
+                            bad('reduction/own-formula/%s-%s/%s' % (lab.lower(), branch, kind),
+                                '%s %s at the %s limit: mixed formula %r, the library\'s own %s formula %s%s gives %r at r=%g spacing=%g'
+                                % (lab, branch, kind, float(got[k]), kind, own_name, kind.capitalize(), float(own[k]), R[k], L[k]))
     # Orowan (any theta: theta enters only through J)
     with np.errstate(all='ignore'):
         oref = ref_orowan(R, L, ri, Jref)
